@@ -76,6 +76,7 @@ def run(ctx):
         for sig, desc, rp in out:
             ctx.violation(sig, desc, rp)
     editobs.run_histories(ctx, {"set_opt"}, "C09", ["MC_Edit_q.cfg"] if ctx.quick else ["MC_Edit_t.cfg"])
+    editobs.random_histories(ctx, "C09", 600 if ctx.quick else 6000, 8)
     ctx.coverage["creation_histories"] = ctx.coverage.pop("evaluations")
     ctx.coverage["creation_rule"] = ctx.coverage.pop("rule")
     ctx.coverage.update({
